@@ -249,6 +249,9 @@ def blind_part(run, name, spec, path, img):
     return comps, det
 
 
+EXT_IMAGES = ('mosaic45', 'rand0', 'rand1', 'nonsquare')
+
+
 def prior_part(run, name, spec, path, comps, stages, regroups):
     ctx = run.ctx
     cat = list(comps) + outside_sources(comps)
@@ -299,6 +302,23 @@ def prior_part(run, name, spec, path, comps, stages, regroups):
         except Exception as e:  # noqa
             ctx.mismatch(f'{name}: priorized fitting of a priorized catalogue raised', {'spec': spec}, impl=repr(e),
                          is_violation={'kind': 'raise', 'job': {'mode': 'prior2', 'spec': spec}, 'what': repr(e)})
+    # third-party input catalogues: files without uuid / island / source / err_* columns (csv, vot), or with masked uuid cells
+    # (fits; a VOTable cannot mask a string cell: it would hold the same empty uuid in every row, i.e. duplicate input uuids)
+    if cat and name in EXT_IMAGES:
+        for how, ext, stage, regroup in (('nouuid', 'csv', 1, True), ('masked', 'fits', 2, False), ('nouuid', 'vot', 3, True)):
+            job = {'mode': 'prior_ext', 'spec': spec, 'stage': stage, 'regroup': regroup, 'outside': True, 'how': how, 'ext': ext}
+            try:
+                fname = cc.write_external_catalogue(cat, os.path.join(ctx.work, f'ext_{name}_{how}.{ext}'), how)
+                pc, _ = cc.run_priorized_file(path, fname, stage, regroup)
+                run.completed += 1
+            except Exception as e:  # noqa
+                run.raised.append((name, f'prior_ext{stage}', repr(e)))
+                ctx.mismatch(f'{name}: priorized fitting with a third-party catalogue file ({how}, {ext}) raised', {'job': job},
+                             impl=repr(e), is_violation={'kind': 'raise', 'job': job, 'what': repr(e)})
+                continue
+            ctx.case(key=f'prior_ext:{how}:{ext}:{stage}:{cc.dump(spec)}' if pc else None,
+                     bucket=f'priorized stage {stage}, input file without uuids ({how}, {ext})')
+            check_catalogue(run, f'{name}/prior-ext-{how}-{ext}', pc, job)
     return cat
 
 
@@ -682,6 +702,13 @@ def coq_pass(ctx, run_, lex, lexp, lwhat, ecases, ereal):
         add(e, ('leaf', exp, w))
     for c, real in zip(ecases, ereal):
         add(error_expr(c), ('err', c, real))
+    # _known_error (uncertainties copied from the input catalogue by priorized fitting) = Model.copied_error, per value class
+    from AegeanTools import source_finder as _sfm
+    kfun = getattr(_sfm, '_known_error', None) or (lambda e: e)   # a tree with the plain copy: the model switch is false there
+    for nm, val in REP.items():
+        if val is None:
+            continue
+        add(f'cls_code (copied_error (cls_of_code {classify(val)}))', ('copy', nm, classify(kfun(val))))
     # catalogues
     for label, rows, rep, job in run_.cats:
         add(f'let c := {cc.catlit(rows)} in (cat_report c, cat_ok c)', ('cat', label, rows, rep, job))
@@ -755,6 +782,12 @@ def coq_pass(ctx, run_, lex, lexp, lwhat, ecases, ereal):
                 bad['err'] += 1
                 viol = None
                 ctx.mismatch('fitting.errors vs Model.errors_model2 (value classes)', c, impl=realn, model=model, is_violation=viol)
+        elif kind == 'copy':
+            _, nm, real = h
+            ctx.case(key=f'copied_error:{nm}', bucket='uncertainty copied from the input catalogue')
+            if v is None or int(v) != real:
+                bad['err'] += 1
+                ctx.mismatch('_known_error vs Model.copied_error (value classes)', {'class': nm}, impl=real, model=v)
         elif kind == 'cat':
             _, label, rows, rep, job = h
             mfails, mpu, muu, mcont, okflag = v      # Coq prints nested pairs flat
@@ -843,6 +876,10 @@ def job_run(ctx, job):
     cat = job.get('catalogue') or (list(comps) + (outside_sources(comps) if job.get('outside') else []))
     if job['mode'] == 'prior2':
         cat, _ = cc.run_priorized(path, cat, 2, False)
+    if job['mode'] == 'prior_ext':
+        fname = cc.write_external_catalogue(cat, os.path.join(ctx.work, f"replay_ext.{job['ext']}"), job['how'])
+        pc, pi = cc.run_priorized_file(path, fname, job['stage'], job['regroup'])
+        return pc, pi, None, cat
     pc, pi = cc.run_priorized(path, cat, job['stage'], job['regroup'])
     return pc, pi, None, cat
 
